@@ -105,7 +105,11 @@ def o1b(h, st):
 # O2/O3 trimming trivial qubits ----------------------------------------------------------------------------------------------
 
 SINGLE = [None, ("X",), ("Z",), ("RZ", "t"), ("RX", "pi"), ("RX", "3pi"), ("RX", "t"), ("RY", "pi"), ("Y",), ("H",),
-          ("RZ", "t", "X"), ("X", "RZ", "t"), ("X", "X"), ("RX", "pi", "RX", "-pi"), ("Z", "RZ", "t"), ("X", "Z"), ("H", "Z"), ("RX", "pi", "Z"), ("Y", "X"), ("RZ", "t", "RX", "t")]
+          ("RZ", "t", "X"), ("X", "RZ", "t"), ("X", "X"), ("RX", "pi", "RX", "-pi"), ("Z", "RZ", "t"), ("X", "Z"), ("H", "Z"), ("RX", "pi", "Z"), ("Y", "X"), ("RZ", "t", "RX", "t"),
+          # components of three and more gates: phase gates BETWEEN partial rotations (they do not commute with them), partial rotations that add up to a multiple of pi
+          ("RX", "pi/2", "Z", "RX", "pi/2"), ("RX", "t", "Z", "RX", "pi-t"), ("RX", "t", "RZ", "t", "RX", "-t"), ("X", "Z", "X"), ("RX", "pi", "RZ", "t", "X"),
+          ("RZ", "t", "X", "RZ", "t"), ("X", "X", "X"), ("RX", "t", "RX", "pi-t"), ("RX", "pi/2", "RX", "pi/2"), ("X", "RX", "t", "X"), ("RX", "t", "RX", "-t", "Z", "X"),
+          ("RX", "pi/2", "RZ", "pi", "RX", "-pi/2"), ("Z", "X", "Z", "X")]
 
 
 def comp_gates(h, spec, q, tag):
@@ -118,7 +122,12 @@ def comp_gates(h, spec, q, tag):
         name = spec[i]
         if name in ("RX", "RY", "RZ"):
             p = spec[i + 1]
-            val = {"pi": h.pi, "3pi": 3 * h.pi, "-pi": -1 * h.pi}.get(p)
+            val = {"pi": h.pi, "3pi": 3 * h.pi, "-pi": -1 * h.pi, "pi/2": h.pi / 2, "-pi/2": -1 * h.pi / 2}.get(p)
+            if p in ("-t", "pi-t"):
+                tv = h.real(f"t{tag}", angle_denom=2)
+                h.assume(tv > 0.05)
+                h.assume(tv < 3.0)
+                val = -1 * tv if p == "-t" else h.pi - tv
             if val is None:
                 # generic angle, away from the multiples of pi (exact bit flips are the separate 'pi' patterns; within atol = 1e-5 of a
                 # bit flip the function deliberately treats the rotation as one)
